@@ -162,6 +162,10 @@ class ThresholdOtsu(Contract):
             def sym_getattr(self_inner, run2, attr):
                 if attr == "flat":
                     return flat
+                if attr == "size":
+                    sz = z3.Int("data_size")
+                    run2.define(sz >= 2, "non-constant data has at least two entries")
+                    return sz
                 return _MISSING
         d = D()
         n = z3.IntVal(256) if case["nbins"] == "default" else run.input_int("nbins")
